@@ -798,6 +798,11 @@ func (w *World) observe(rs *reqState, c *rux.Context) string {
 			sort.Strings(cp)
 			v = cp
 		}
+		if strings.HasPrefix(k, "_") && k != rux.CTXRecoverResult && k != rux.CTXAllowedMethods && k != rux.CTXCurrentRouteName && k != rux.CTXCurrentRoutePath {
+			// an internal key no property speaks about (a debug stack, a timestamp, ...): its presence is observed, its value is not
+			b.WriteString(k)
+			continue
+		}
 		fmt.Fprintf(&b, "%s=%v", k, v)
 	}
 	b.WriteString(" e=[")
